@@ -16,9 +16,16 @@ def default_rules():
 
 def scan_cfg(job):
     """job = (doc, enable list or None, disable list or None, enable_all) -> ('ok', sorted failure tuples) | ('err', msg)"""
-    doc, en, dis, all_ = job
+    doc, en, dis, all_ = job[:4]
     from pymarkdown.api import PyMarkdownApi, PyMarkdownApiException
     api = PyMarkdownApi()
+    for name, val in (job[4] if len(job) > 4 else ()):
+        if isinstance(val, bool):
+            api.set_boolean_property(name, val)
+        elif isinstance(val, int):
+            api.set_integer_property(name, val)
+        else:
+            api.set_string_property(name, val)
     if all_:
         api.enable_rule_by_identifier("*")
     if dis == ["*"]:
@@ -37,15 +44,34 @@ def scan_cfg(job):
         return "exc", f"{type(e).__name__}: {e}"[:200]
 
 
-def _mutation_probe(doc):
+SCENARIOS = {
+    "front-matter-title": (("extensions.front-matter.enabled", True), ("plugins.md025.front_matter_title", "Title"), ("plugins.md041.front_matter_title", "Title")),
+    "front-matter": (("extensions.front-matter.enabled", True),),
+    "styles": (("plugins.md013.line_length", 20), ("plugins.md013.strict", True), ("plugins.md003.style", "setext_with_atx"), ("plugins.md004.style", "plus"),
+               ("plugins.md024.siblings_only", True), ("plugins.md025.level", 2), ("plugins.md041.level", 2), ("plugins.md046.style", "fenced"), ("plugins.md035.style", "***")),
+}
+FM_DOCS = ["---\nTitle: my document\n---\n\nsome text\n", "---\ntitle: x\n---\n\n# h\n", "---\nTitle: x\nSubject: y\n---\n\n# a\n\n# b\n", "---\nTITLE: x\n---\n\n## a\n\ntext  \n",
+           "---\nsubject: s\nTitle: t\n---\ntext\n\n# h\n", "---\nauthor: me\n---\n\nsome text\n", "---\nTitle:\n---\n\n# h\n\n# i\n", "---\ntitle: a\nTitle: b\n---\n\ntext\n"]
+
+
+def _set_args(settings):
+    out = []
+    for name, val in settings:
+        out += ["--set", name + "=" + ("$!" + str(val) if isinstance(val, bool) else "$#" + str(val) if isinstance(val, int) else val)]
+    return out
+
+
+def _mutation_probe(doc, settings=()):
     """two recorders, sorted first and last among all enabled rules, must see identical tokens (no rule mutates a token in scan mode)"""
+    if isinstance(doc, tuple):
+        doc, settings = doc
     import recgen
     with core.Scratch("pv-c12-") as d:
         open(os.path.join(d, "f.md"), "w", encoding="utf-8", newline="").write(doc)
         a = recgen.make(d, "aaa001", callbacks=("token",))
         z = recgen.make(d, "zzz998", callbacks=("token",))
         log = os.path.join(d, "rec.log")
-        code, out, err = impl.run_cli(["--add-plugin", a, "--add-plugin", z, "-e", ",".join(all_rule_ids()), "scan", "f.md"], cwd=d, env={"PV_REC_LOG": log})
+        code, out, err = impl.run_cli(_set_args(settings) + ["--add-plugin", a, "--add-plugin", z, "-e", ",".join(all_rule_ids()), "scan", "f.md"], cwd=d, env={"PV_REC_LOG": log})
         evs = [json.loads(l) for l in open(log, encoding="utf-8")] if os.path.exists(log) else []
     first = [(e["tok"], e["l"], e["c"]) for e in evs if e["who"] == "AAA001"]
     last = [(e["tok"], e["l"], e["c"]) for e in evs if e["who"] == "ZZZ998"]
@@ -109,15 +135,51 @@ def run(ctx):
             if minus[r][1] != want:
                 ctx.violation("disable", {"doc": d, "disabled": r}, f"disabling {r} changes other rules' reports: {minus[r][1]} vs {want}", group="disable-" + r)
     ctx.sample({"doc": docs[0], "all": res[0][1][:5]})
+    # ---- the same laws under configured rules and the front-matter extension (a rule may read the front matter; none may change it)
+    sdocs = FM_DOCS + [d for d in multi[:6]] + gen.sample(small, 40 if ctx.tier == "quick" else 300, 17)
+    sjobs = []
+    for sc, settings in SCENARIOS.items():
+        for d in sdocs:
+            sjobs.append((d, None, None, False, settings))
+            for r in default:
+                sjobs.append((d, [r], [x for x in allr if x != r], False, settings))
+            for r in default:
+                sjobs.append((d, None, [r], False, settings))
+    sres = impl.pmap(scan_cfg, sjobs, chunksize=46)
+    sper = 1 + 2 * len(default)
+    k = 0
+    for sc in SCENARIOS:
+        for d in sdocs:
+            chunk = sres[k * sper:(k + 1) * sper]
+            k += 1
+            ctx.count(sper, "scan-configured/" + sc)
+            if any(c[0] != "ok" for c in chunk):
+                ctx.unit("skipped", crashing_documents=1)
+                continue
+            def_res = chunk[0]
+            alone = dict(zip(default, chunk[1:1 + len(default)]))
+            minus = dict(zip(default, chunk[1 + len(default):]))
+            if def_res[1]:
+                ctx.seen([sc, d])
+            un_def = sorted(f for r in default for f in alone[r][1])
+            if def_res[1] != un_def:
+                diff = collections.Counter(def_res[1]) - collections.Counter(un_def), collections.Counter(un_def) - collections.Counter(def_res[1])
+                ctx.violation("union", {"doc": d, "set": "default", "scenario": sc}, f"under {sc} the default set reports {sorted(diff[0])} more and {sorted(diff[1])} less than the union of its rules alone",
+                              group="union-" + "-".join(sorted({f[2] for f in list(diff[0]) + list(diff[1])})))
+            for r in default:
+                want = sorted(f for f in def_res[1] if f[2] != r)
+                if minus[r][1] != want:
+                    ctx.violation("disable", {"doc": d, "disabled": r, "scenario": sc}, f"under {sc}, disabling {r} changes other rules' reports: {minus[r][1]} vs {want}", group="disable-" + r)
     # no rule mutates a token in scan mode
     probe_docs = docs[: (210 if ctx.tier == "quick" else 1560)]
+    probe_docs = [(d, ()) for d in probe_docs] + [(d, SCENARIOS[sc]) for sc in ("front-matter-title", "front-matter") for d in FM_DOCS]
     pres = impl.pmap(_mutation_probe, probe_docs, chunksize=8)
-    for d, (code, same, n, err) in zip(probe_docs, pres):
+    for (d, pset), (code, same, n, err) in zip(probe_docs, pres):
         ctx.count(1, "token-immutability")
         if code not in (0, 1) or "Error" in err:
             continue            # the scan ended in an application error (a rule raised: C07's business); the last recorder was never reached
         if not same:
-            ctx.violation("mutation", {"doc": d}, "the recorder dispatched last saw different tokens than the recorder dispatched first: a rule modified a token in scan mode", group="mutation")
+            ctx.violation("mutation", {"doc": d, "settings": [list(x) for x in pset]} if pset else {"doc": d}, "the recorder dispatched last saw different tokens than the recorder dispatched first: a rule modified a token in scan mode", group="mutation")
     ctx.corr_cases += len(probe_docs)
     ctx.unit("documents", docs=len(docs), configurations_per_document=per)
     ctx.trusted += [
@@ -127,6 +189,6 @@ def run(ctx):
     ]
     return ctx.finish(
         level="proof",
-        rule=f"per document {per} scans: all rules, default set, each of {len(allr)} rules alone, default minus each of {len(default)}; documents from the repository's own test corpus ({len(corpus)} documents; quick: 450 seed-selected incl. 150 with >= 9 lines) + trigger-line documents + 60 documents with pragmas naming two rules; non-trivial = at least one failure reported; distinct by document",
+        rule=f"per document {per} scans: all rules, default set, each of {len(allr)} rules alone, default minus each of {len(default)}; documents from the repository's own test corpus ({len(corpus)} documents; quick: 450 seed-selected incl. 150 with >= 9 lines) + trigger-line documents + 60 documents with pragmas naming two rules; 3 configured scenarios (front matter with a configured title, front matter, non-default styles) x (8 front-matter documents + sampled small documents) x (default set, each default rule alone, default minus each); non-trivial = at least one failure reported; distinct by document",
         assumptions=["documents on which the parser or a rule crashes are skipped here (C01, C07)"],
     )
